@@ -96,7 +96,7 @@ enum Target {
 
 fn run_generic(env: &mut Env, target: Target) -> Outcome {
     let ctxrc = env.ctx.clone();
-    let (lens, payloads, plan) = {
+    let (lens, mut payloads, plan) = {
         let mut ctx = ctxrc.borrow_mut();
         let nmsg = if ctx.chance("more_messages", 1, 8) { 4 + ctx.choose("nmsg_more", 3) as usize } else { 1 + ctx.choose("nmsg", 3) as usize };
         let stratum = if env.thorough && env.case % 2 == 0 { Some((env.case / 2) as usize) } else { None };
@@ -132,7 +132,10 @@ fn run_generic(env: &mut Env, target: Target) -> Outcome {
 
     let mut reference: Vec<u8> = Vec::new();
     let mut unfinished: Option<(Vec<u8>, usize)> = None;
-    for (i, p) in payloads.iter().enumerate() {
+    // a caller whose write failed may well try the same message again
+    let retry_same = ctxrc.borrow_mut().chance("same_message_again_after_an_error", 1, 2);
+    for i in 0..payloads.len() {
+        let p = &payloads[i].clone();
         let before = wire.borrow().c2s_all.len();
         let fired_before: u64 = ctxrc.borrow().faults.iter().filter(|(k, _)| **k != "short_write").map(|(_, v)| *v).sum();
         let pc = p.clone();
@@ -227,6 +230,10 @@ fn run_generic(env: &mut Env, target: Target) -> Outcome {
                 }
                 if i + 1 < payloads.len() {
                     ctxrc.borrow_mut().probe("write_after_reported_error");
+                    if retry_same {
+                        payloads[i + 1] = p.clone();
+                        ctxrc.borrow_mut().probe("same_message_again_after_an_error");
+                    }
                 }
                 continue;
             }
@@ -278,7 +285,7 @@ pub fn run_tls(env: &mut Env) -> Outcome {
     world.pump();
     let base_plain = world.server.borrow().app_in.len();
     // messages and the fault plan (positions count cipher-text octets from now on)
-    let (payloads, plan) = {
+    let (mut payloads, plan) = {
         let mut ctx = ctxrc.borrow_mut();
         let mut ps = Vec::new();
         for _ in 0..nmsg {
@@ -304,7 +311,9 @@ pub fn run_tls(env: &mut Env) -> Outcome {
     let mut results: Vec<bool> = Vec::new();
     let mut frames: Vec<Vec<u8>> = Vec::new();
     let mut errs: Vec<String> = Vec::new();
-    for (i, p) in payloads.iter().enumerate() {
+    let retry_same = ctxrc.borrow_mut().chance("same_message_again_after_an_error", 1, 2);
+    for i in 0..payloads.len() {
+        let p = &payloads[i].clone();
         let fired_before: u64 = ctxrc.borrow().faults.iter().filter(|(k, _)| **k != "short_write" && **k != "context_switch").map(|(_, v)| *v).sum();
         let pc = p.clone();
         let res = match guard(|| x.write(pc)) { Ok(r) => r, Err(pr) => return panic_outcome(&pr) };
@@ -328,6 +337,10 @@ pub fn run_tls(env: &mut Env) -> Outcome {
             c.write_fail_at = None;
             c.eintr_write = 0;
             c.zero_write = 0;
+            if retry_same && i + 1 < payloads.len() {
+                payloads[i + 1] = p.clone();
+                ctxrc.borrow_mut().probe("same_message_again_after_an_error");
+            }
         }
         results.push(res.is_ok());
     }
